@@ -473,7 +473,8 @@ def check_c18(ctx):
 # ------------------------------------------------------------------------------------------
 
 C12_THEOREMS = ['BinlogVerif.C12.c12_position', 'BinlogVerif.C12.splitEntries_frames',
-                'BinlogVerif.C12.c12_resume_step', 'BinlogVerif.C12.c12_prefix', 'BinlogVerif.C12.c12_prefix_events']
+                'BinlogVerif.C12.c12_resume_step', 'BinlogVerif.C12.c12_prefix', 'BinlogVerif.C12.c12_prefix_events',
+                'BinlogVerif.C12.c12_textout_prefix']
 
 
 def check_c12(ctx):
@@ -526,7 +527,17 @@ def check_c12(ctx):
     tfmt, tdfmt = b'%S %n %m|%r\n', b'%Y'
     nto = cases_count(ctx, 25, 300)
     for li in range(nto):
-        log = [p for p in G.rand_log(rng, n_entries=rng.choice([2, 4, 7, 12]))]
+        # well-formed logs whose events render without error (an event that fails to render leaves a PARTIAL line on the
+        # output before the exception: robustness, C09 - not what C12 is about)
+        log = [G.cs_payload(rng.randrange(100), 10 ** 9, rng.randrange(1 << 40), 0, b'UTC')]
+        nsrc = rng.choice([1, 2, 3])
+        for sid in range(1, nsrc + 1):
+            log.append(G.source_payload(sid, rng.choice(G.SEVERITIES), b'cat', b'fn', b'f.cpp', sid, rng.choice([b'plain %d' % sid, b'v={} end', b'{}']) if sid % 2 else b'msg', b'i' if sid % 2 else b''))
+        for _ in range(rng.choice([1, 3, 6, 10])):
+            if rng.random() < 0.15:
+                log.append(G.wp_payload(rng.randrange(9), G.rand_bytes(rng, 4, b'wab'), 0))
+            sid = rng.randrange(1, nsrc + 1)
+            log.append(G.event_payload(sid, rng.randrange(1000), G.u32(rng.randrange(1 << 32)) if sid % 2 else b''))
         data = G.frames(log)
         bounds = [0]
         for p_ in log:
